@@ -136,6 +136,9 @@ Supported subset
               constant or a plain name.  s.ljust(w, "<char>").  `for x in <declared item list>: x.value = e`
               (`elem_lists`): the list becomes the list of the changed items (only unit / value / descr, from
               expressions that cannot raise).
+              `name = re.compile(<constant>)` (a local compiled pattern), <it>.findall(s), s.split("<one char>")
+              (pieces as "joined" values), a dict of local functions, and `return <function value>` for a function
+              declared `returns_function` (translated applied to the declared extra parameters).
   refused     a translated name that is bound a second time in its module / class (or assigned through
               Class.name / setattr / global) is refused: the translation would not be what runs.
   fragments   BlockTr (a block of a big method from an anchor statement to the end of its statement list, or its
@@ -1458,6 +1461,12 @@ class Tr:
         m = f.attr
         args = [self.expr(a, env) for a in n.args]
         tys = [a.ty for a in args]
+        if r.ty == REGEX and m == "findall" and tys == [STR]:
+            # the matches, each presented as "".join(<its groups>) (see the module-level findall above)
+            return self.strict([r, args[0]], lambda c: "re_findall_joined %s (%s)" % (c[0], c[1]), LIST(JOINED))
+        if r.ty == STR and m == "split" and tys == [STR] and isinstance(args[0].const, str) and len(args[0].const) == 1:
+            # the pieces are strings; as "joined" values they stand for themselves ("".join(s) == s)
+            return self.strict([r], lambda c: "split_char %d (%s)" % (ord(args[0].const), c[0]), LIST(JOINED))
         if r.ty == STR and r.const == "" and m == "join" and tys == [JOINED]:
             return self.strict([args[0]], lambda c: c[0], STR)          # "".join(t): what a JOINED value stands for
         if r.ty == STR and m == "replace" and tys == [STR, STR] and args[1].const == "" and isinstance(args[0].const, str) \
@@ -1733,6 +1742,13 @@ class Tr:
                 return self.return_lambda(s.value, env)
             if self.is_self_call(s.value, env):
                 return self.rec_call(s.value, env)
+            if self.frames[-1].get("top") and self.spec.get("returns_function"):
+                # the function returns a function value: translated applied to the declared extra parameters
+                e = self.expr(s.value, env)
+                ps = self.spec["returns_function"]
+                if e.ty != FUNC([t for _, t in ps], self.spec["ret"]):
+                    self.err(s, "returns %s, not the declared function type" % (e.ty,))
+                return self.ret(self.strict([e], lambda c: "(%s %s)" % (c[0], " ".join(self.var(p) for p, _ in ps)), self.spec["ret"]), s)
             if self.frames[-1].get("top") and self.spec.get("returns_lambda"):
                 self.err(s, "return of something other than the declared lambda")
             if isinstance(s.value, ast.Tuple):
@@ -2025,6 +2041,15 @@ class Tr:
                 self.err(s, "unsupported lambda parameter kinds")
             pre, env2 = self.nested(name, [x.arg for x in a.args], None, v.body, env, s)
             return pre + go(env2)
+        if isinstance(v, ast.Call) and same_ast(v.func, "re.compile") and "re" not in env and len(v.args) == 1 and not v.keywords \
+                and isinstance(v.args[0], ast.Constant) and isinstance(v.args[0].value, str):
+            # name = re.compile(<constant>): a local compiled pattern (parsed by CPython's own parser, regexes.py)
+            try:
+                term = regexes.translate(v.args[0].value)
+            except regexes.TranslateError as ex:
+                self.err(s, "pattern %r: %s" % (v.args[0].value, ex))
+            pre, post, env2 = self.bind(name, E("(%s)" % term, REGEX), env, s)
+            return pre + go(env2) + post
         if self.patterns and isinstance(v, ast.Constant) and isinstance(v.value, str):
             if name in self.frags:
                 self.err(s, "pattern fragment %s assigned a second string constant" % name)
@@ -2630,7 +2655,7 @@ class Tr:
             binders.append("(%s : bool)" % self.var(name))
         for name, cty in spec.get("opaque_params", []):
             binders.append("(%s : %s)" % (self.var(name), cty))
-        for p, t in spec.get("returns_lambda", []):
+        for p, t in spec.get("returns_lambda", []) + spec.get("returns_function", []):
             binders.append("(%s : %s)" % (self.var(p), coq_type(t)))
         rty = coq_type(spec["ret"])
         if self.fn_partial:
@@ -2664,7 +2689,7 @@ class Tr:
                 coq=spec["coq"], args=list(spec.get("self_attrs", {}).values()) + [spec["kwarg"][1]], ret=spec["ret"],
                 partial=self.fn_partial, ops=needs_ops, extra=list(spec.get("extra_binders", [])), file=None, mutator=False,
                 pnames=[], none_defaults=[], self_attrs=list(spec.get("self_attrs", {})), kwarg=True)
-        if not spec.get("opaque_tests") and not spec.get("returns_lambda") and not spec.get("kwarg"):
+        if not spec.get("opaque_tests") and not spec.get("returns_lambda") and not spec.get("kwarg") and not spec.get("returns_function"):
             qual = "%s.%s" % (spec["py"], spec["nested_name"]) if spec.get("nested_name") else \
                 (spec["cls"] + "." if spec.get("cls") else "") + spec["py"]
             REGISTRY[qual] = dict(
@@ -3274,6 +3299,11 @@ SPECS += [
                       "np.isfinite(x)": ("j_is_finite jops v_x", BOOL),
                       "int(x)": ("j_int jops v_x", DYN), "float(x)": ("j_float jops v_x", DYN),
                       "None": ("j_none jops", DYN)}),
+    dict(py="define_line_splitter", file="reader.py", cls=None, coq="py_define_line_splitter",
+         params=[("provisional_delimiter", STR)], returns_function=[("line", STR)], ret=LIST(JOINED),
+         nested={"split_on_whitespace": ([("line", STR)], LIST(JOINED)), "split_on_tabs": ([("line", STR)], LIST(JOINED)),
+                 "split_on_comma": ([("line", STR)], LIST(JOINED))},
+         locals={"splitters": DICT(STR, FUNC([STR], LIST(JOINED)))}),
     dict(py="inspect_data_section", file="reader.py", cls=None, coq="py_inspect_data_section",
          params=[("file_obj", FILE), ("line_nos", TUPLE(INT, INT)), ("regexp_subs", LIST(SUBPAIR)), ("ignore_data_comments", STR),
                  ("line_splitter", OPT(FUNC([STR], LIST(JOINED))))],
